@@ -24,7 +24,7 @@ RULE = ("seeded histories of 2-16 requests on a simulated block device (SG_IO / 
         "real size; enumerated: every one of the 256 operation code values through SCSICommand.init_cdb and through a constructor, "
         "every block-size-needing method with block size 0, service actions -2..40. Non-trivial = at least one invalid request was "
         "made after at least one valid command reached the device; distinct = event digest")
-ENUMERATED_NOTE = "256 opcode values x {init_cdb, constructor}; 10 block-size-needing methods at block size 0 x 3 devices; PR IN service actions -2..40"
+ENUMERATED_NOTE = "256 opcode values x {init_cdb, constructor}; 10 block-size-needing methods at block size 0 x 3 devices; PR IN service actions -2..40; all 256 EXTENDED COPY descriptor type code values outside the defined ones x {target/CSCD, segment} position x {SPC-4, SPC-5}"
 COMPONENTS = {"real": ["SCSI facade", "command constructors", "SCSICommand.init_cdb", "ExtendedCopy (SPC-4/5) validation", "marshall_transport_id", "SCSIDevice/ISCSIDevice"],
               "stubs": ["sgio module", "iscsi module", "virtual /dev", "plain recording device"],
               "simulated_peers": ["t10.targets.BlockLU"]}
@@ -112,8 +112,15 @@ def generate(rng, idx, tier):
     return {"property": ID, "config": {"device": rng.choice(["sgio", "iscsi", "plain"]), "blocksize": start_bs}, "ops": ops}
 
 
+# descriptor type codes the SPC-4/SPC-5 code spaces give to the two positions (segment descriptors 00h-1Fh and the ROD ones BEh/BFh;
+# CSCD descriptors E0h-EFh, FEh, FFh).  Which of these a version defines differs (SPC-5 adds 18h, 19h, ECh, FEh), so inside the
+# ranges nothing is demanded; everything outside them is an unknown code in either version
+XCOPY_TARGET_CODES = set(range(0xE0, 0xF0)) | {0xFE, 0xFF}
+XCOPY_SEGMENT_CODES = set(range(0x00, 0x20)) | {0xBE, 0xBF}
+
+
 def enumerated_count(tier):
-    return 256 * 2 + len(BS_METHODS) * 3 + 43
+    return 256 * 2 + len(BS_METHODS) * 3 + 43 + 64
 
 
 def enumerated(k, tier):
@@ -136,6 +143,15 @@ def enumerated(k, tier):
         return {"property": ID, "config": {"device": ["plain", "sgio", "iscsi"][k % 3], "blocksize": 0},
                 "ops": [dict(op="valid", **F.gen_call(rng, "inquiry", cfg)), dict(op="invalid", kind="blocksize", **call)]}
     k -= len(BS_METHODS) * 3
+    if k >= 43:
+        # every descriptor type code value outside the defined ones, in the target/CSCD and in the segment position, SPC-4 and SPC-5
+        k -= 43
+        ver, what, chunk = [4, 5][k // 32], ["target_code", "segment_code"][(k // 16) % 2], k % 16
+        defined = XCOPY_TARGET_CODES if what == "target_code" else XCOPY_SEGMENT_CODES
+        ops = [{"op": "invalid", "kind": "xcopy", "ver": ver, "what": what, "code": c, "exact": True, "nvalid": 1 + c % 2, "falsy": None, "junk": "x"}
+               for c in range(chunk * 16, chunk * 16 + 16) if c not in defined]
+        return {"property": ID, "config": {"device": ["plain", "sgio", "iscsi"][k % 3], "blocksize": 512},
+                "ops": [dict(op="valid", **F.gen_call(rng, "testunitready", cfg))] + ops}
     sa = k - 2
     return {"property": ID, "config": {"device": "sgio", "blocksize": 512},
             "ops": [dict(op="valid", **F.gen_call(rng, "testunitready", cfg)), {"op": "service_action_any", "value": sa}]}
@@ -160,6 +176,8 @@ def xcopy_kwargs(op):
         b2s["destination_cscd_descriptor_id" if spc5 else "destination_target_descriptor_id"] = 1
         b2s[op["junk"]] = 1
         segs[-1] = b2s
+    elif w in ("target_code", "segment_code") and op.get("exact"):
+        (targets if w == "target_code" else segs)[-1]["descriptor_type_code"] = op["code"]
     elif w == "target_code":
         targets[-1]["descriptor_type_code"] = op["code"] if op["code"] not in range(0xE0, 0xEB) else 0x10
         if spc5 and op["code"] % 3 == 0:
@@ -290,7 +308,7 @@ def execute(prog):
         elif name == "invalid" and op["kind"] == "xcopy":
             kw = xcopy_kwargs(op)
             meth = scsi.extendedcopy5 if op["ver"] == 5 else scsi.extendedcopy4
-            summary.append(refused(lambda: meth(**kw), ValueError, "xcopy%d" % op["ver"], "refused_xcopy", op["what"]))
+            summary.append(refused(lambda: meth(**kw), ValueError, "xcopy%d" % op["ver"], "refused_xcopy", op["what"] + ("=%#04x" % op["code"] if op.get("exact") else "")))
         elif name == "invalid" and op["kind"] == "transport_id":
             if op["what"] == "sid_no_format":
                 tid = {"protocol_id": 5, "iscsi_name": "iqn.2026-10.verif:a", "iscsi_initiator_session_id": "00023d000001"}
